@@ -60,3 +60,9 @@ claim('C20', 'c20_debug.c',
       'their arguments exactly when compiled in and the level is reached; silenced message functions print nothing and return; a failed ASSERT warns and returns the stated value at '
       'level 0 and ends the process (only) at level >= 1; a failed REQUIRE returns the value and logs only at level >= 1; with DEBUG 0 ASSERT vanishes and REQUIRE is the bare return.',
       'DESIGN.md section 4, C20')
+claim('C15', 'c15_mem.c',
+      'CBMC inductive-step check of the debug memory tracker (src/mem.c built with -DDEBUG=5): each tracked operation from an arbitrary valid table vs an oracle table; macro equivalence against the DEBUG<5 macro text; library balance scenarios',
+      'From every table of 0..3 records (symbolic sizes, lines, file names) and for every runtime level on either side of the memory-debugging threshold, the solver shows '
+      'malloc/calloc/strdup/realloc/free leave exactly one record per live block with its current address, last size, 20-character file name and line; realloc(NULL) allocates, '
+      'realloc(p,0) frees, unknown pointers leave the table unchanged; the MALLOC/REALLOC/FREE/CALLOC macros behave alike with tracking compiled in and out.',
+      'DESIGN.md section 4, C15')
